@@ -52,18 +52,48 @@ pub fn spec_l_step_tables(msg: [u8; 16], i: usize) -> [u8; 16] {
     out
 }
 
-// l_step reads the window it should and rewrites the byte it should (data movement; same table look-ups on both sides)
-// @ob name=c_l_step props=C07,C20 fn=kuznyechik::utils::l_step timeout=600
-#[kani::proof]
-#[kani::unwind(17)]
-fn c_l_step() {
-    let msg: [u8; 16] = kani::any();
-    let mut i = 0;
-    while i < 16 {
-        assert!(kz::eq(&l_step(msg, i), &spec_l_step_tables(msg, i)));
-        i += 1;
+// l_step reads the window it should and rewrites the byte it should (data movement; same table look-ups on both sides),
+// one obligation per step index i (all sixteen in one harness timed out)
+macro_rules! l_step_at { ($name:ident, $i:expr) => {
+    #[kani::proof]
+    #[kani::unwind(17)]
+    fn $name() {
+        let msg: [u8; 16] = kani::any();
+        assert!(kz::eq(&l_step(msg, $i), &spec_l_step_tables(msg, $i)));
     }
-}
+}; }
+// @ob name=c_l_step_00 props=C07,C20 fn=kuznyechik::utils::l_step timeout=300
+l_step_at!(c_l_step_00, 0);
+// @ob name=c_l_step_01 props=C07,C20 fn=kuznyechik::utils::l_step timeout=300
+l_step_at!(c_l_step_01, 1);
+// @ob name=c_l_step_02 props=C07,C20 fn=kuznyechik::utils::l_step timeout=300
+l_step_at!(c_l_step_02, 2);
+// @ob name=c_l_step_03 props=C07,C20 fn=kuznyechik::utils::l_step timeout=300
+l_step_at!(c_l_step_03, 3);
+// @ob name=c_l_step_04 props=C07,C20 fn=kuznyechik::utils::l_step timeout=300
+l_step_at!(c_l_step_04, 4);
+// @ob name=c_l_step_05 props=C07,C20 fn=kuznyechik::utils::l_step timeout=300
+l_step_at!(c_l_step_05, 5);
+// @ob name=c_l_step_06 props=C07,C20 fn=kuznyechik::utils::l_step timeout=300
+l_step_at!(c_l_step_06, 6);
+// @ob name=c_l_step_07 props=C07,C20 fn=kuznyechik::utils::l_step timeout=300
+l_step_at!(c_l_step_07, 7);
+// @ob name=c_l_step_08 props=C07,C20 fn=kuznyechik::utils::l_step timeout=300
+l_step_at!(c_l_step_08, 8);
+// @ob name=c_l_step_09 props=C07,C20 fn=kuznyechik::utils::l_step timeout=300
+l_step_at!(c_l_step_09, 9);
+// @ob name=c_l_step_10 props=C07,C20 fn=kuznyechik::utils::l_step timeout=300
+l_step_at!(c_l_step_10, 10);
+// @ob name=c_l_step_11 props=C07,C20 fn=kuznyechik::utils::l_step timeout=300
+l_step_at!(c_l_step_11, 11);
+// @ob name=c_l_step_12 props=C07,C20 fn=kuznyechik::utils::l_step timeout=300
+l_step_at!(c_l_step_12, 12);
+// @ob name=c_l_step_13 props=C07,C20 fn=kuznyechik::utils::l_step timeout=300
+l_step_at!(c_l_step_13, 13);
+// @ob name=c_l_step_14 props=C07,C20 fn=kuznyechik::utils::l_step timeout=300
+l_step_at!(c_l_step_14, 14);
+// @ob name=c_l_step_15 props=C07,C20 fn=kuznyechik::utils::l_step timeout=300
+l_step_at!(c_l_step_15, 15);
 
 // the sixteen table look-ups and XORs are the standard's l (term by term, then the sum)
 // @ob name=c_ell_tables props=C07,C20 fn=kuznyechik::utils::l_step uses=c_gft_tables timeout=600
@@ -91,7 +121,7 @@ fn c_ell_tables() {
 }
 
 // one step on the window is R on the logical block (data movement only)
-// @ob name=l_l_step_is_r props=C07 kind=lemma fn=kuznyechik::utils::l_step uses=c_l_step,c_ell_tables timeout=300
+// @ob name=l_l_step_is_r props=C07 kind=lemma fn=kuznyechik::utils::l_step uses=c_l_step_*,c_ell_tables timeout=300
 #[kani::proof]
 #[kani::unwind(17)]
 fn l_l_step_is_r() {
@@ -105,7 +135,7 @@ fn l_l_step_is_r() {
 }
 
 // steps 15, 14, ..., 0 undo it: the same step on the window is R^-1 on the logical block
-// @ob name=l_l_step_is_rinv props=C07 kind=lemma fn=kuznyechik::utils::l_step uses=c_l_step,c_ell_tables timeout=300
+// @ob name=l_l_step_is_rinv props=C07 kind=lemma fn=kuznyechik::utils::l_step uses=c_l_step_*,c_ell_tables timeout=300
 #[kani::proof]
 #[kani::unwind(17)]
 fn l_l_step_is_rinv() {
@@ -135,7 +165,7 @@ pub fn l16_inv(mut m: [u8; 16]) -> [u8; 16] {
     m
 }
 
-// @ob name=c_l16 props=C07,C20 fn=kuznyechik::utils::l_step uses=c_l_step,c_ell_tables timeout=600
+// @ob name=c_l16 props=C07,C20 fn=kuznyechik::utils::l_step uses=c_l_step_*,c_ell_tables timeout=600
 #[kani::proof]
 #[kani::stub(l_step, spec_l_step)]
 #[kani::unwind(17)]
@@ -144,7 +174,7 @@ fn c_l16() {
     assert!(kz::eq(&l16(msg), &kz::l(&msg)));
 }
 
-// @ob name=c_l16_inv props=C07,C20 fn=kuznyechik::utils::l_step uses=c_l_step,c_ell_tables timeout=600
+// @ob name=c_l16_inv props=C07,C20 fn=kuznyechik::utils::l_step uses=c_l_step_*,c_ell_tables timeout=600
 #[kani::proof]
 #[kani::stub(l_step, spec_l_step)]
 #[kani::unwind(17)]
